@@ -174,6 +174,21 @@ func main() {
 				res.Violate("probe placement: entry with seq <= s sorts before the probe", map[string]interface{}{"cmp": cid, "probe": hex.EncodeToString(pk), "entry": hex.EncodeToString(e)})
 			}
 		}
+		// complete probe placement (C15_probe_precedes_iff): against an entry of ANY user key,
+		// z < probe(k, s) iff uk z < k, or uk z = k and seq z > s
+		{
+			c := leveldb.VerifICompare(uc, Z, pk)
+			u := uc.Compare(z.u, x.u)
+			want := u < 0 || (u == 0 && z.seq > x.seq)
+			if (c < 0) != want {
+				res.Violate(fmt.Sprintf("probe placement (any key): entry<probe is %v, expected %v", c < 0, want), map[string]interface{}{"cmp": cid, "probe": hex.EncodeToString(pk), "entry": hex.EncodeToString(Z)})
+			}
+			if u == 0 {
+				res.Count("probe_vs_same_ukey", 1)
+			} else {
+				res.Count("probe_vs_other_ukey", 1)
+			}
+		}
 		addCase(fmt.Sprintf("CCmp %d %s %s %d", cid, vlib.CoqHex(X), vlib.CoqHex(Y), code(cxy)))
 		// separator on the ordered pair
 		A, B := X, Y
